@@ -18,7 +18,20 @@ def run(ctx):
     walks = ctx.behaviours("net", "Gen_PacketStream", "Gen_PacketStream.cfg",
                            constants={"MaxPkts": ctx.pick(2, 3), "Depth": 60},
                            simulate="num=%d" % ctx.pick(1500, 12000), depth=61, seed=ctx.seed, timeout=1500)
+    # every complete run of one small packet with <= 6 events: includes all (cell, footer hash := 0) double alterations
+    bs2 = ctx.behaviours("net", "Gen_PacketStream", "Gen_PacketStream.cfg",
+                         constants={"MaxPkts": 1, "Depth": 6, "ELens": "{0}", "Lens": "{0, 1}", "Hdrs": "{1}"}, timeout=900)
+    bs = bs + bs2
     allb = bs + walks
+    # vacuity guard: the double alteration "a header/payload cell AND the footer hash blanked to zero" is generated
+    def blanked(b):
+        c = [e for e in b if e["op"] == "corrupt"]
+        return len(c) == 2 and c[0]["kind"] in ("hv", "pl", "pay") and c[1]["kind"] == "hash" and c[1]["v"] == 0
+    nblank = sum(1 for b in allb if blanked(b))
+    if nblank < 20:
+        from vlib import MachineryError
+        raise MachineryError("vacuity: only %d runs alter a header/payload cell and blank the footer hash" % nblank)
+    ctx.notes.append("runs with an altered header/payload cell and a zeroed footer hash: %d" % nblank)
     inp = ctx.path("in", "behaviours.ndjson")
     with open(inp, "w") as fh:
         for b in allb:
@@ -29,8 +42,8 @@ def run(ctx):
     for b in (walks[:2] + bs[-1:]):
         ctx.sample([{k: s[k] for k in ("op", "hv", "pl", "el", "at", "kind", "v", "n", "nout", "dead")} for s in b])
     return ctx.finish(
-        rule="a behaviour = one TLC-generated run (writes of packets, chunk deliveries, at most one in-transit "
-             "alteration, close, eof): all complete runs of one packet with <=%d events by BFS + %d random walks; "
+        rule="a behaviour = one TLC-generated run (writes of packets, chunk deliveries, one in-transit "
+             "alteration, optionally a second one of the same packet's footer hash (blanked to zero), close, eof): all complete runs of one packet with <=%d events by BFS + %d random walks; "
              "distinct by its event sequence; non-trivial if at least one chunk reaches the reader" % (d, len(walks)),
         assumptions=["FNV-64a is treated as an injective symbolic hash (a single altered byte of equal-length input "
                      "always changes FNV-1a; length changes collide with probability 2^-64)",
